@@ -28,5 +28,6 @@ Definition dispatch (u : Z) (a : sx) : sx :=
   | 19 => u_validate a
   | 20 => u_eliminate a
   | 21 => u_convert a
+  | 22 => u_stv a
   | _ => bad_input
   end.
